@@ -60,20 +60,20 @@ type Conn struct {
 	srv *Server
 	mu  sync.Mutex
 
-	seq          int
-	Log          []Event
-	KeepLog      bool
+	seq     int
+	Log     []Event
+	KeepLog bool
 	// CancelIdentity: injected failures are errors that wrap context.Canceled (a connection pool that gives up because
 	// the context is done) instead of an anonymous error: what failed is the same, only the error's identity differs
 	CancelIdentity bool
-	faults       map[int]bool // primitive sequence numbers that fail
-	FaultsHit    int
-	FaultKinds   []string
-	Unmodelled   []string
-	txs          []*Tx
-	Closed       bool
-	UseAfterEnd  int // statements issued on a finished transaction
-	RedundantEnd int // commit/rollback on an already finished transaction (harmless in pgx; counted)
+	faults         map[int]bool // primitive sequence numbers that fail
+	FaultsHit      int
+	FaultKinds     []string
+	Unmodelled     []string
+	txs            []*Tx
+	Closed         bool
+	UseAfterEnd    int // statements issued on a finished transaction
+	RedundantEnd   int // commit/rollback on an already finished transaction (harmless in pgx; counted)
 }
 
 func (s *Server) Connect() *Conn { return &Conn{srv: s, faults: map[int]bool{}} }
